@@ -135,9 +135,44 @@ def check_derivation(ctx, cls, fi, args, label, expect_pair):
     return probs, len(outs)
 
 
+def entry_representation(repo):
+    """How a pending op is recorded by _append_op: 'tuple' for the (name, argument) pair the walks model, otherwise the text of the recorded entry
+    (a pre-bound callable such as methodcaller / partial / a lambda, an object ...). Closed-form policy applied to the data structure: the recording (M1, T2), replay
+    (T3) and indexing (P2, C01.P1) walks compare terms built from (name, argument) pairs; another representation is not a wrong one, it is outside the model."""
+    cls = repo.cls(TR, 'BaseEphysReader')
+    ap = repo.lookup_method(cls, '_append_op')
+    if ap is None:
+        return 'tuple'
+    me = T('self')
+    heap, ref0, old = state0(me)
+    I = RI(repo, cls)
+    try:
+        outs = I.run(ap, env={ap.params[0]: me, ap.params[1]: T('opname'), ap.params[2]: T('oparg')}, heap=heap)
+    except Exception:
+        return 'tuple'
+    for kind, val, st in outs:
+        if kind == 'return' and is_t(val) and val[1] == 'obj':
+            cref = st.heap.get((val, '_ops'))
+            content = st.heap.get(cref) if I._is_ref(cref) else cref
+            if is_t(content) and content[1] in ('list', 'tuple') and len(content) >= 3:
+                e = content[-1]
+                if is_t(e) and e[1] == 'call' and not any(x == T('tuple', T('opname'), T('oparg')) for x in subterms(e)):
+                    return show(e)[:80]
+    return 'tuple'
+
+
 def run(ctx):
     repo = ctx.repo
     cls = repo.cls(TR, 'BaseEphysReader')
+    rep = entry_representation(repo)
+    if rep != 'tuple':
+        missing = [x for x in REQUIRED if repo.lookup_method(cls, '__%s__' % x) is None]
+        ctx.check(not missing, 'C02.T1', cls, 'BaseEphysReader', 'all 14 operator methods of the statement are defined',
+                  'operator methods missing on the base reader: %s' % ['__%s__' % m for m in missing])
+        for r_ in ('C02.M1', 'C02.T2', 'C02.T3', 'C02.T4', 'C02.P2', 'C02.H1'):
+            ctx.undecided(r_, cls.name, 'a pending op is recorded as `%s`, not as the (name, argument) pair the walks model: recording, replay and indexing are not decided' % rep)
+        ctx.outside_model = 'pending ops are recorded as `%s`' % rep
+        return
     # ---- T1
     missing = [x for x in REQUIRED if repo.lookup_method(cls, '__%s__' % x) is None]
     ctx.check(not missing, 'C02.T1', cls, 'BaseEphysReader', 'all 14 operator methods of the statement are defined',
